@@ -47,6 +47,7 @@ const (
 	hRace   // two peers announce / withdraw the same prefix at the same time
 	hRaceUp // a session completes its handshake while another peer's update is in flight
 	hRaceRefresh // a peer asks for a ROUTE-REFRESH while another peer's update is in flight
+	hTwin        // another peer announces the route this peer has, attribute for attribute (two relays of one route)
 )
 
 type h01Op struct {
@@ -99,10 +100,10 @@ func drawH01(t *rapid.T) h01Case {
 		c.Peers = append(c.Peers, p)
 	}
 	n := rapid.IntRange(3, 40).Draw(t, "nops")
-	kinds := []int{hAnnounce, hAnnounce, hAnnounce, hAnnounce, hAnnounce, hWithdraw, hWithdraw, hFlap, hApiAdd, hApiDel, hDown, hUp, hBurst, hDeletePeer, hRace, hRaceUp, hRaceRefresh}
+	kinds := []int{hAnnounce, hAnnounce, hAnnounce, hAnnounce, hAnnounce, hWithdraw, hWithdraw, hFlap, hApiAdd, hApiDel, hDown, hUp, hBurst, hDeletePeer, hRace, hRaceUp, hRaceRefresh, hTwin, hTwin}
 	maxPrefix := 5
 	if c.Focus {
-		kinds = []int{hAnnounce, hAnnounce, hAnnounce, hAnnounce, hWithdraw, hWithdraw, hWithdraw, hRace, hRace, hRaceUp, hRaceRefresh, hRaceRefresh, hFlap, hApiAdd, hApiDel}
+		kinds = []int{hAnnounce, hAnnounce, hAnnounce, hAnnounce, hWithdraw, hWithdraw, hWithdraw, hRace, hRace, hRaceUp, hRaceRefresh, hRaceRefresh, hFlap, hApiAdd, hApiDel, hTwin, hTwin}
 		maxPrefix = 1
 		n = rapid.IntRange(8, 40).Draw(t, "nops_f")
 	}
@@ -147,6 +148,7 @@ type h01Run struct {
 	serial uint32
 	log    []string
 	raced  bool
+	twins  bool
 	// for the non-trivial rule
 	bestChangedAfterTold bool
 	told                 map[rsViewKey]bool
@@ -309,6 +311,26 @@ func (r *h01Run) apply(op h01Op) *verifkit.Failure {
 		}
 		otherUpdate(qi)
 		r.raced = true
+	case hTwin:
+		qi := otherPeer()
+		if !p.up || qi < 0 || r.peers[qi].spec.internal() != p.spec.internal() {
+			return nil
+		}
+		rt, has := p.adjin[key(op.PathID)]
+		if !has {
+			announce(op.Prefix, op.PathID, op.Variant)
+			n.settle()
+			rt = p.adjin[key(op.PathID)]
+		}
+		q := r.peers[qi]
+		kq := rsViewKey{V6: op.V6, Prefix: rsPrefix(op.V6, op.Prefix).String()}
+		if q.spec.AddPathRecv {
+			kq.ID = uint32(op.PathID)
+		}
+		_ = q.sess.send(rsAnnounce(q.spec, op.V6, op.Prefix, kq.ID, rt.attrs), rsTxOpt(q.spec))
+		q.adjin[kq] = h01Route{attrs: rt.attrs, tag: rt.tag}
+		r.twins = true
+		r.logf("peer %d announces %s id=%d with the attributes of peer %d's route (tag %#x)", qi, kq.Prefix, kq.ID, op.Peer, rt.tag)
 	case hRaceRefresh:
 		qi := otherPeer()
 		if !p.up || qi < 0 {
@@ -545,13 +567,14 @@ func (r *h01Run) verify() *verifkit.Failure {
 			}
 		})
 	}
-	wantLoc := map[rsViewKey]map[uint32]bool{}
+	// per destination: tag -> number of sources that hold a usable route with it (more than one for twins)
+	wantLoc := map[rsViewKey]map[uint32]int{}
 	addWant := func(k rsViewKey, tag uint32) {
 		kk := rsViewKey{V6: k.V6, Prefix: k.Prefix}
 		if wantLoc[kk] == nil {
-			wantLoc[kk] = map[uint32]bool{}
+			wantLoc[kk] = map[uint32]int{}
 		}
-		wantLoc[kk][tag] = true
+		wantLoc[kk][tag]++
 	}
 	for _, p := range r.peers {
 		if !p.up {
@@ -569,7 +592,7 @@ func (r *h01Run) verify() *verifkit.Failure {
 	for k, paths := range loc {
 		seenSrc := map[string]bool{}
 		for pi, lp := range paths {
-			if !wantLoc[k][lp.tag] {
+			if wantLoc[k][lp.tag] == 0 {
 				return r.fail("locrib-stale", "Loc-RIB holds tag %#x for %s which is withdrawn, replaced, unusable or from an ended session (paths %+v)", lp.tag, k.Prefix, paths)
 			}
 			sk := fmt.Sprintf("%s/%d", lp.src, lp.id)
@@ -583,19 +606,25 @@ func (r *h01Run) verify() *verifkit.Failure {
 		}
 	}
 	for k, tags := range wantLoc {
-		have := map[uint32]bool{}
+		have := map[uint32]int{}
 		for _, lp := range loc[k] {
-			have[lp.tag] = true
+			have[lp.tag]++
 		}
-		for tag := range tags {
-			if !have[tag] {
+		for tag, cnt := range tags {
+			if have[tag] == 0 {
 				return r.fail("locrib-missing", "Loc-RIB lacks tag %#x for %s (has %+v)", tag, k.Prefix, loc[k])
+			}
+			if have[tag] != cnt {
+				return r.fail("locrib-count", "Loc-RIB holds %d paths with tag %#x for %s, %d sources announce it (has %+v)", have[tag], tag, k.Prefix, cnt, loc[k])
 			}
 		}
 	}
 	// ---- C01: wire views ----
-	find := func(tag uint32) (*rsPeer, rsAttrs, bool) {
+	find := func(src string, tag uint32) (*rsPeer, rsAttrs, bool) {
 		for _, p := range r.peers {
+			if p.spec.Addr != src {
+				continue
+			}
 			for _, rt := range p.adjin {
 				if rt.tag == tag {
 					return p.spec, rt.attrs, true
@@ -665,7 +694,7 @@ func (r *h01Run) verify() *verifkit.Failure {
 			}
 			var exportable []cand
 			for pi, lp := range paths {
-				src, attrs, ok := find(lp.tag)
+				src, attrs, ok := find(lp.src, lp.tag)
 				if !ok {
 					continue
 				}
@@ -706,17 +735,23 @@ func (r *h01Run) verify() *verifkit.Failure {
 				}
 				for _, e := range got {
 					t := h01TagOf(e.Attrs)
-					ok := false
+					ok, same, firstDiff := false, false, ""
 					for _, c := range exportable {
 						if c.tag == t {
 							ok = true
-							if eq, diff := rsAttrsEqual(rsNormalise(e.Attrs), rsNormalise(c.want)); !eq {
-								return r.fail("wrong-export-attrs", "peer %d, %s tag %#x: %s", i, d.Prefix, t, diff)
+							// twins carry one tag: the entry has to be the export of one of them
+							if eq, diff := rsAttrsEqual(rsNormalise(e.Attrs), rsNormalise(c.want)); eq {
+								same = true
+							} else if firstDiff == "" {
+								firstDiff = diff
 							}
 						}
 					}
 					if !ok {
 						return r.fail("stale-advertisement", "peer %d holds tag %#x for %s which is not an exportable current path", i, t, d.Prefix)
+					}
+					if !same {
+						return r.fail("wrong-export-attrs", "peer %d, %s tag %#x: %s", i, d.Prefix, t, firstDiff)
 					}
 				}
 			}
@@ -777,6 +812,9 @@ func runH01(t *testing.T) func(c h01Case, st *verifkit.Stats) *verifkit.Failure 
 			}
 			if r.raced {
 				st.Label("racing-operations")
+			}
+			if r.twins {
+				st.Label("twin-routes")
 			}
 			if c.Sched != 0 && simYieldAvailable {
 				st.Label("steered-schedule")
